@@ -78,15 +78,17 @@ class FakeStream:
 
 
 class FakeConnection(tornado.httputil.HTTPConnection):
-    def __init__(self, loop):
+    def __init__(self, loop, stream=None, context=None):
+        # like tornado's HTTP1ServerConnection: one connection object per request, all requests of one
+        # keep-alive TCP connection share the same stream and the same context
         self.loop = loop
-        self.context = _Ctx()
+        self.context = context or _Ctx()
         self.start_line = None
         self.headers = None
         self.chunks = []
         self.finished = False
         self.close_cb = None
-        self.stream = FakeStream(loop)
+        self.stream = stream if stream is not None else FakeStream(loop)
         self.detached = False
         self.no_keep_alive = False
 
@@ -181,13 +183,18 @@ class WebDriver:
         self.auth = self.master.addons.get("webauth")
 
     # ------------------------------------------------------------------
-    def request(self, method, uri, headers=None, body=b"", version="HTTP/1.1") -> Response:
-        """headers: list of (name, value) pairs (order and duplicates preserved)"""
+    def new_tcp_connection(self):
+        """(stream, context) of one keep-alive TCP connection; pass as `tcp=` to several request() calls"""
+        return FakeStream(self.loop), _Ctx()
+
+    def request(self, method, uri, headers=None, body=b"", version="HTTP/1.1", tcp=None) -> Response:
+        """headers: list of (name, value) pairs (order and duplicates preserved);
+        tcp: what new_tcp_connection() returned, to send this request on an already used connection"""
         import mitmproxy.ctx as mctx
 
         mctx.master = self.master
         mctx.options = self.master.options
-        conn = FakeConnection(self.loop)
+        conn = FakeConnection(self.loop, *(tcp or ()))
         h = tornado.httputil.HTTPHeaders()
         for k, v in headers or []:
             h.add(k, v)
